@@ -44,7 +44,15 @@ _T = ["sniff_custom_iff", "sniff_tls_iff", "sniff_plain_iff", "sniff_refuse_iff"
       "useEncryption_covers_payload", "enc_layer_both_sides", "secretlyProtected_iff", "emptyToken_witness",
       "authKey_never_clear", "holdsOn_sound", "model_holdsOn", "holdsOn_tls",
       "gen_setters_only_digest", "gen_setters_match_model", "gen_control_wrap", "gen_listeners", "gen_sniff",
-      "gen_secretFields_match_carries", "gen_visitors"]
+      "gen_secretFields_match_carries", "gen_visitors",
+      # every listener / every control transport (tcp, tls-muxed, kcp, websocket, quic; wss)
+      "listeners_complete", "public_listener_gate", "quic_tls_inherits_identity", "listenerTls_clientAuth_iff",
+      "handshakeOkOn_sniff", "quic_never_plain", "forced_plain_peer_uninterpreted_every_listener",
+      "handshakeOkOn_requires_cert", "ca_peer_without_acceptable_cert_uninterpreted_every_listener",
+      "ca_reaches_iff_handshake", "sessionUpOn_sniffed", "wss_no_session", "quic_client_session_iff",
+      "ca_session_requires_cert_every_protocol", "client_refuses_other_identity_every_protocol",
+      "force_session_requires_tls_every_protocol", "interpretedOk_sound",
+      "gen_listener_handlers", "gen_quic_tls", "gen_server_tls_config", "gen_client_quic_tls"]
 
 PROP = {
         "level": "other",
@@ -63,8 +71,13 @@ PROP = {
                 "own md5; (d) a raw TCP peer against a real frps (tcpMux off): every first byte x force followed by the rest "
                 "of a valid Login frame; (e) certificate lattice (8 server configurations x 108 client configurations, "
                 "certificates made at run time with crypto/x509: CA1, CA2, server cert with SANs frps.test+127.0.0.1, client "
-                "certs from CA1 / CA2) through the real client.NewConnector against a real frps; (f) a real frps + real frpc "
-                "(tcp proxy, stcp proxy + stcp visitor, http proxy with user/password) through a recording TCP relay, "
+                "certs from CA1 / CA2) through the real client.NewConnector against a real frps that listens on tcp (muxed "
+                "plain / tls / websocket), kcp and quic: the complete lattice over tcp, websocket and quic with the right key "
+                "and a generated third of it with a wrong key, generated samples over wss (48) and kcp (6); the Lean "
+                "predicate interpretedOk (a reply frame of any kind only for a peer the force / identity rules admit on that "
+                "transport) is evaluated on every answer; (f) a real frps + real frpc "
+                "(tcp proxy, stcp proxy + stcp visitor, http proxy with user/password) through a recording TCP relay (protocol "
+                "quic: a recording UDP relay in front of the quic port), "
                 "crypto/rand markers as token, secret key, http password, http user, login user, payloads; with TLS and "
                 "tcpMux off the captured control stream is additionally decrypted with the token to show the secrets are "
                 "there under the cipher. non-trivial = TLS/refuse sniff, raw peer, TLS handshake attempt, relay run, digest "
@@ -73,18 +86,24 @@ PROP = {
             "model Frp/Model/Wire.lean written by hand (sniff, Complete, tls.Config records, dial hooks, message channel "
             "table, wrapper stacks); tied by the wire engine and by the regenerated facts Frp/Gen/AuthFacts.lean "
             "(translate/gen_authfacts.go: token setters, NewControl cipher wrap on both ends, `!internal`, listener "
-            "internal flags, sniff switch, secret-named fields of all 18 message structs, visitor SignKey expressions)",
+            "internal flags, sniff switch, secret-named fields of all 18 message structs, visitor SignKey expressions, "
+            "every Handle*Listener call and handleConnection caller, the sniff call's arguments, the provenance of "
+            "svr.tlsConfig and of the tls.Config handed to quic.ListenAddr / quic.DialAddr (initialiser + every field "
+            "write), the guarded field writes of NewServerTLSConfig); the provenance reading sees assignments in the "
+            "function body only, not mutation through aliases or callees",
             "crypto/tls + crypto/x509 verification (chain to RootCAs/ClientCAs, ServerName/IP SAN match) is ASSUMED as "
-            "`serverCertAccepted` / `clientCertAccepted`; sampled by the 864-case certificate lattice",
+            "`serverCertAccepted` / `clientCertAccepted`; sampled by the certificate lattice (864 cases x tcp / websocket / quic); ALPN agreement in QUIC mode is "
+            "ASSUMED as `alpnOk`",
         ],
         "assumptions": [
             "PARTIAL / level other: that TLS and AES-CFB output does not reveal its plaintext is cryptography and is not "
             "stated; the theorems say which layers every message kind and the payload pass (for every configuration), the "
-            "engine observes marker absence on a real wire for 21 configurations",
+            "engine observes marker absence on a real wire for 28 configurations (tcp, websocket, quic)",
             "the message-to-channel table (`channel`) is hand-read from every msg.WriteMsg / dispatcher Send site; only "
             "NewControl's cipher wrap and the secret-named fields are regenerated by the translator",
-            "driven transports: tcp with and without tcpMux; kcp / quic / websocket / wss dial options are modelled "
-            "(hooks order, custom byte) but not driven on a wire; OIDC bearer tokens (Login.PrivilegeKey holds the token "
+            "driven transports: recording relay (marker absence): tcp with and without tcpMux, websocket, quic (recording "
+            "UDP relay in front of the quic port); session / identity rules: tcp, websocket, quic (complete certificate "
+            "lattice), wss and kcp (samples); no recording relay in front of the kcp port; OIDC bearer tokens (Login.PrivilegeKey holds the token "
             "itself under auth.method=oidc) and NewProxy.GroupKey are outside the property's wording and not modelled",
             "observation recorded as theorem secretlyProtected_iff / emptyToken_witness: both AES-CFB layers are keyed "
             "by pbkdf2(token, constant salt); with an empty token and TLS off the cipher key is public",
@@ -100,15 +119,17 @@ META = {
                      "exhaustive sniff, raw-peer and certificate lattices)",
         "text": "Partial (cryptographic secrecy is not expressible). Proved for the model, kernel-checked: a forcing server "
                 "(force, or a trusted CA) never treats any first byte as plaintext and a peer that does not complete an "
-                "acceptable TLS handshake never reaches message decoding; a trusted CA implies RequireAndVerifyClientCert; a "
+                "acceptable TLS handshake never reaches message decoding — on every public listener (tcp, tls-muxed, kcp, "
+                "websocket, and quic, whose tls.Config is a clone of the server's with only ALPN changed) and, at session "
+                "level, for every control transport (tcp, kcp, websocket, wss, quic); a trusted CA implies RequireAndVerifyClientCert; a "
                 "client with a CA verifies chain and server name and gets no session with another identity; the token "
                 "travels only as digest in every message kind; NewProxy (the only carrier of secret key / HTTP password in "
                 "clear form) always passes the token-keyed control cipher on public listeners; with TLS every message kind "
                 "and the payload are under TLS; without TLS exactly Login, LoginResp, NewWorkConn, StartWorkConn, NatHoleSid, "
                 "NewVisitorConn(Resp) (and unencrypted payload) are readable; useEncryption puts the cipher layer on both "
-                "ends in the same order. Observed on the real code on every run: 512 sniff cases, 512 raw-peer cases, 864 "
-                "certificate cases, 21 recorded frpc<->frps sessions with random markers, 3000 token-setter cases.",
+                "ends in the same order. Observed on the real code on every run: 512 sniff cases, 512 raw-peer cases, about 3400 "
+                "certificate cases over tcp / websocket / quic / wss / kcp, 28 recorded frpc<->frps sessions (tcp, websocket, quic) with random markers, 3000 token-setter cases.",
         "note": "Trusted: Lean kernel; hand-written model Frp/Model/Wire.lean; translator gen_authfacts.go; harness. Assumed: "
-                "crypto/tls, crypto/x509, golib crypto. Not covered: kcp/quic/websocket/wss on a wire, OIDC bearer token in "
+                "crypto/tls, crypto/x509, golib crypto. Not covered: marker observation on the kcp UDP path, OIDC bearer token in "
                 "Login, group keys, xtcp peer-to-peer traffic (not on the frpc<->frps path).",
     }
